@@ -411,7 +411,8 @@ _LIFETIME = re.compile(r"'[^ ,>)]+ ?")
 def sig_key(fj):
     """signature of a function modulo lifetimes: kind, parameter types, return type"""
     tys = [_LIFETIME.sub('', l['ty']) for l in fj['locals'][1:fj['arg_count'] + 1]]
-    return json.dumps([fj.get('def_kind'), tys, _LIFETIME.sub('', fj.get('ret') or '')])
+    ret = fj['locals'][0]['ty'] if fj.get('locals') else (fj.get('ret') or '')
+    return json.dumps([fj.get('def_kind'), tys, _LIFETIME.sub('', ret)])
 
 
 def detect_renames(fns, pinned):
